@@ -3,8 +3,10 @@
 (* GET / HEAD / POST by two users, backend answers with and without            *)
 (* Cache-Control - all sequences of length 2 and 3.                            *)
 EXTENDS Naturals, Sequences, SequencesExt, Json, IOUtils, TLC
-Ops == {[m |-> "GET", u |-> "u1", cc |-> FALSE], [m |-> "GET", u |-> "u2", cc |-> FALSE], [m |-> "GET", u |-> "u1", cc |-> TRUE],
-        [m |-> "HEAD", u |-> "u1", cc |-> FALSE], [m |-> "POST", u |-> "u1", cc |-> FALSE]}
+Ops == {[m |-> "GET", u |-> "u1", cc |-> FALSE, st |-> 200], [m |-> "GET", u |-> "u2", cc |-> FALSE, st |-> 200],
+        [m |-> "GET", u |-> "u1", cc |-> TRUE, st |-> 200], [m |-> "HEAD", u |-> "u1", cc |-> FALSE, st |-> 200],
+        [m |-> "POST", u |-> "u1", cc |-> FALSE, st |-> 200],
+        [m |-> "GET", u |-> "u1", cc |-> FALSE, st |-> 206]}     \* a ranged GET answered 206 Partial Content (never kept)
 Seqs == [1..2 -> Ops] \cup [1..3 -> Ops]
 VARIABLE x
 GInit == x = 0
